@@ -703,6 +703,13 @@ fn reg_alloc_req(tid: usize, sh: &Shared, m: Meta4, kind: &'static str, pat: u8,
     l
   });
   if cap > 0 && off + cap <= ENG.with(|e| e.borrow().rg.cap) {
+    // C08: what alloc_bytes returns reads as zero at the moment it is returned (earlier owners left patterns)
+    if matches!(kind, "bytes" | "owned-bytes") {
+      let s = unsafe { std::slice::from_raw_parts(sh.base.add(off), cap) };
+      if let Some(i) = s.iter().position(|b| *b != 0) {
+        ENG.with(|e| e.borrow_mut().viol.push(V { class: "not-zeroed".into(), sig: format!("not-zeroed:{}", kind), msg: format!("thread {} got [{},{}) from alloc_bytes with byte {:#04x} at offset {}", tid, off, off + cap, s[i], off + i) }));
+      }
+    }
     unsafe { std::ptr::write_bytes(sh.base.add(off), pat, cap) };
   }
   l
